@@ -707,6 +707,13 @@ Theorem C14_addr_search_second : forall valid find buf k c pre sep d re tail bad
 Proof. exact SubstAddrProps.region_search_second. Qed.
 Print Assumptions C14_addr_search_second.
 
+(* the model's out-of-fuel outcome does not occur: every round of the address loop consumes at least a separator, so ex_region's
+   model and with it the whole command always answer *)
+Theorem C14_addr_total : forall valid find buf loc arg k,
+  a_region valid find buf loc k <> None /\ ec_subst valid find buf loc arg k <> None.
+Proof. intros. split; [apply SubstAddrProps.region_total | apply SubstAddrProps.ec_subst_total]. Qed.
+Print Assumptions C14_addr_total.
+
 (* the head behind an accepted address IS SubstDefs.subst_setup (C14_reuse, the C14_gflag theorems) run on the state the address left *)
 Theorem C14_addr_head_is_setup : forall valid find buf loc arg k b e k1,
   a_region valid find buf loc k = Some (false, b, e, k1) ->
